@@ -7,6 +7,7 @@ mod oracle;
 mod props;
 mod rng;
 mod scenario;
+mod shrink;
 mod world;
 
 use std::collections::{BTreeMap, BTreeSet};
@@ -240,6 +241,57 @@ fn replay(args: &[String]) -> i32 {
     }
 }
 
+/// Minimises the scenario of a replay file (same clause must keep failing) and rewrites it.
+fn shrink_cmd(args: &[String]) -> i32 {
+    let file = args.get(2).expect("shrink <file>");
+    let scratch = arg(args, "--scratch").expect("--scratch");
+    let out_path = arg(args, "--out").expect("--out");
+    let registry = match findings::load(arg(args, "--known").as_deref()) {
+        Ok(r) => r,
+        Err(e) => {
+            eprintln!("known findings: {}", e);
+            return 2;
+        },
+    };
+    let rp: Replay = match std::fs::read_to_string(file).map_err(|e| e.to_string()).and_then(|t| serde_json::from_str(&t).map_err(|e| e.to_string())) {
+        Ok(r) => r,
+        Err(e) => {
+            eprintln!("cannot load {}: {}", file, e);
+            return 2;
+        },
+    };
+    install_hook();
+    let mut sh = shrink::Shrinker {
+        clause: rp.clause.clone(),
+        registry: &registry,
+        scratch: PathBuf::from(&scratch),
+        executions: 0,
+        budget: 400,
+    };
+    if sh.fails(&rp.scenario).is_none() {
+        eprintln!("the recorded scenario does not fail in the shrinker; leaving it as it is");
+        return 3;
+    }
+    let min = sh.minimise(&rp.scenario);
+    sh.budget += 2;
+    let Some(f) = sh.fails(&min)
+    else {
+        eprintln!("minimised scenario stopped failing; leaving the original");
+        return 3;
+    };
+    let new = Replay {
+        violation: f.violation,
+        scenario: min,
+        fingerprint: format!("{:016x}", f.fingerprint),
+        log: f.log,
+        minimised: true,
+        ..rp
+    };
+    std::fs::write(&out_path, serde_json::to_string_pretty(&new).unwrap()).expect("write");
+    println!("minimised in {} executions", sh.executions);
+    0
+}
+
 fn install_hook() {
     let default_hook = std::panic::take_hook();
     std::panic::set_hook(Box::new(move |info| {
@@ -349,6 +401,7 @@ fn main() {
             0
         },
         Some("selftest") => selftest(&args),
+        Some("shrink") => shrink_cmd(&args),
         Some("gen") => {
             let prop = arg(&args, "--prop").expect("--prop");
             let seed: u64 = arg(&args, "--seed").expect("--seed").parse().unwrap();
